@@ -399,7 +399,18 @@ def rule_r4(chk, p, t, ea):
         lp = loops[0]
         it = lp.iter
         base = it.func.value if isinstance(it, ast.Call) and isinstance(it.func, ast.Attribute) and it.func.attr in ("items", "keys") else it
-        require(isinstance(base, ast.Attribute) and base.attr == "sensor_changes", f"loop iterates `{unparse(it)}`, not sensor_changes", lp)
+        if not (isinstance(base, ast.Attribute) and base.attr == "sensor_changes"):
+            from rsa.terms import single_defs as _sd
+
+            d = _sd(step.node)
+            if not (isinstance(base, ast.Name) and base.id in d and isinstance(d[base.id], ast.Attribute) and d[base.id].attr == "sensor_changes"):
+                r.violation(
+                    step.qualname + ":sensor_changes",
+                    f"changes-applied-over-other-collection:{unparse(it)}",
+                    f"pointing updates are applied while iterating `{unparse(it)}`, not the entries of sensor_changes: a tasked sensor that is absent from that collection (e.g. one that slewed and then missed) keeps a stale boresight and time_last_tasked",
+                    step.loc(c),
+                )
+                return
         # unconditional inside the loop, and no break
         inner = [a for a in _ancestors(c, pm) if a is not lp and isinstance(a, (ast.If, ast.Try, ast.While)) and lp in _ancestors(a, pm)]
         has_break = any(isinstance(n, (ast.Break, ast.Return)) for n in ast.walk(lp))
